@@ -302,6 +302,10 @@ class Ctx:
             "known_findings_hit": self.known_hits, "notes": self.notes,
         }
         cov["samples"] = cov["samples"][:6]
+        if not cov.get("states"):
+            # no exhaustive TLC run in this check: the schema takes absent keys, not zero counts
+            cov.pop("states", None)
+            cov.pop("transitions", None)
         if self.replay is None:
             os.makedirs(os.path.join(VERIF, "evidence"), exist_ok=True)
             tmp = os.path.join(VERIF, "evidence", ".%s.json.tmp" % self.pid)
